@@ -23,8 +23,9 @@ ASSUMPTIONS = ["lines compared after rstrip, split with str.splitlines on every 
 SHRINK_KEYS = ["base", "local", "remote"]
 SHRINK_EVALS = 500
 
-MARKER = re.compile(r'^(<{7} (local|LOCAL CELL DELETED >{7}|REMOTE CELL DELETED >{7})|\|{7}( base)?|={7}|>{7} remote'
-                    r'|<span style="color:red"><b>(<{7} local|={7}|>{7} remote)</b></span>)$')
+# labels are the three file names handed to git merge-file / diff3 (diff3 may open a block with '<<<<<<< base')
+MARKER = re.compile(r'^(<{7} (local|base|remote|LOCAL CELL DELETED >{7}|REMOTE CELL DELETED >{7})|\|{7}( (local|base|remote))?|={7}'
+                    r'|>{7} (local|base|remote)|<span style="color:red"><b>(<{7} local|={7}|>{7} remote)</b></span>)$')
 
 
 def valid(case):
